@@ -306,47 +306,6 @@ set_option linter.unusedSimpArgs false
 method name and element kind they accept and raise LenaTypeError at construction for everything else."
 `c : Caps` is any object (any capability table), `name` any method name (`none` = no keyword argument). -/
 
-/-- the documented capability each adapter needs -/
-def callAccepts (c : Caps) : Option String → Bool
-  | none => c.callable
-  | some n => c.hasMethod n
-
-def sourceElAccepts (c : Caps) : Option String → Bool
-  | none => c.callable || (c.attr "__iter__").present
-  | some n => c.hasMethod n
-
-def runAccepts (c : Caps) : Option String → Bool
-  | none => c.hasMethod "run" || c.callable || c.isFillComputeEl
-  | some n => c.isNone || c.hasMethod n
-
-def fillIntoAccepts (c : Caps) : Option String → Bool
-  | none => c.hasMethod "fill_into" || (c.callable && !c.isSplit) || (c.isRunEl && (c.attr "_can_break_flow").present)
-  | some n => c.hasMethod n
-
-def fillComputeAccepts (c : Caps) (fill compute : String) : Bool :=
-  c.hasMethod fill && (c.hasMethod compute || c.hasMethod "request")
-
-/-- what an accepted adapter is bound to -/
-def callBinding : Option String → CallMode
-  | none => .self
-  | some n => .method n
-
-def sourceElBinding (c : Caps) : Option String → CallMode
-  | none => if c.callable then .self else .iter
-  | some n => .method n
-
-def runBinding (c : Caps) : Option String → RunMode
-  | none => if c.hasMethod "run" then .method "run" else if c.callable then .callRun else .fcRun
-  | some n => if c.isNone then .given else .method n
-
-def fillIntoBinding (c : Caps) : Option String → FillIntoMode
-  | none => if c.hasMethod "fill_into" then .method "fill_into"
-            else if c.callable && !c.isSplit then .callDefault else .runFillInto
-  | some n => .method n
-
-def fillComputeBinding (c : Caps) (fill compute : String) : String × String :=
-  (fill, if c.hasMethod compute then compute else "request")
-
 theorem call_accepts_iff (c : Caps) (name : Option String) :
     (∃ m, mkCall c name = .ok m) ↔ callAccepts c name = true := by
   cases name with
@@ -695,6 +654,11 @@ def Spec.InScope : Spec → Prop
   | .runIf _ _ => True
   | _ => False
 
+theorem inScopeB_iff (s : Spec) : s.inScopeB = true ↔ s.InScope := by
+  cases s <;> simp only [Spec.inScopeB, Spec.InScope] <;> try simp
+  rename_i a b st
+  cases h : Lena.C17.mkSlice a b st <;> simp
+
 theorem mkSlice_islice_step (a b s : Option Int) (a' : Nat) (b' : Option Nat) (st : Nat)
     (h : Lena.C17.mkSlice a b s = .islice a' b' st) : 1 ≤ st := by
   unfold Lena.C17.mkSlice at h
@@ -775,6 +739,7 @@ theorem spec_preKind (s : Spec) (hs : s.InScope) (o : Obj) (ho : s.toObj = .ok o
   | syn _ _ _ => cases hs
   | junk => cases hs
   | setContext => cases hs
+  | runIfBad _ => cases hs
 
 theorem toObjs_append : ∀ (a b : List Spec) (os : List Obj), Spec.toObjs (a ++ b) = .ok os →
     ∃ oa ob, Spec.toObjs a = .ok oa ∧ Spec.toObjs b = .ok ob ∧ os = oa ++ ob
@@ -978,5 +943,355 @@ example : ∀ c ∈ exSibling, (fillRun c [1, 2, 3, 4, 5, 6, 7]).term = none := 
   simp only [exSibling, List.mem_cons, List.not_mem_nil, or_false] at hc
   rcases hc with rfl | rfl <;> rfl
 example : project 1 (splitRunTagged exSibling (some 2) [1, 2, 3, 4, 5, 6, 7]) = [56] := by rfl
+
+/-! ## 6. The hypothesis `PreSafe`, characterised
+
+`PreSafe pre xs` is *defined* by the executable check `preSafeB` (evaluated by the model driver on every generated
+case and compared with an independent Python reference).  `PreSafeSpec` says the same thing declaratively, element
+by element, in terms of the elements' own functions only; `preSafe_iff` proves the check sound and complete. -/
+
+/-- no pre-processing element raises on any value that reaches it, when the flow is passed on stage by stage:
+* a callable returns on every value (results `ys` go on);
+* a `Filter`'s selector returns on every value (the selected values go on);
+* a `Slice` never raises (`islice(xs, start, stop, step)` goes on);
+* a flow-breaking Run element raises on no single value (the concatenated results go on). -/
+def PreSafeSpec : List (Pre α) → List α → Prop
+  | [], _ => True
+  | .call f :: rest, xs => ∃ ys, MapsTo f xs ys ∧ PreSafeSpec rest ys
+  | .filter p :: rest, xs =>
+    (∀ x ∈ xs, ∃ b, p x = .ok b) ∧ PreSafeSpec rest (xs.filter (fun x => selTrue (p x)))
+  | .slice a b st :: rest, xs => PreSafeSpec rest (Lena.C17.islice xs a b st)
+  | .runEl r :: rest, xs =>
+    (∀ x ∈ xs, (observe (r (.ofList [x]))).term = none) ∧
+      PreSafeSpec rest (xs.flatMap (fun x => (observe (r (.ofList [x]))).vals))
+
+theorem preSafe_cons (e : Pre α) (rest : List (Pre α)) (xs : List α) (s1 : Strm α)
+    (hrun : e.run (.ofList xs) = .ok s1) :
+    PreSafe (e :: rest) xs ↔ ∃ ys, s1 = .ofList ys ∧ PreSafe rest ys := by
+  simp only [PreSafe, preSafeB, hrun, Bool.and_eq_true, Option.isNone_iff_eq_none]
+  constructor
+  · rintro ⟨h1, h2⟩
+    exact ⟨s1.vals, Strm.ofList_eq s1 h1, h2⟩
+  · rintro ⟨ys, rfl, h⟩
+    exact ⟨rfl, h⟩
+
+/-- **`preSafeB` is sound and complete** for the declarative notion, for every well-formed list of
+pre-processing elements and every flow -/
+theorem preSafe_iff : ∀ (pre : List (Pre α)) (xs : List α), PreWF pre →
+    (PreSafe pre xs ↔ PreSafeSpec pre xs)
+  | [], xs, _ => by simp [PreSafe, preSafeB, PreSafeSpec]
+  | e :: rest, xs, hwf => by
+    obtain ⟨hwe, hwr⟩ := preWF_cons hwf
+    cases e with
+    | call f =>
+      rw [preSafe_cons (.call f) rest xs (mapGo f none xs) rfl]
+      simp only [PreSafeSpec, mapGo_eq_ofList]
+      constructor
+      · rintro ⟨ys, h1, h2⟩; exact ⟨ys, h1, (preSafe_iff rest ys hwr).mp h2⟩
+      · rintro ⟨ys, h1, h2⟩; exact ⟨ys, h1, (preSafe_iff rest ys hwr).mpr h2⟩
+    | filter p =>
+      rw [preSafe_cons (.filter p) rest xs (filterGo p none xs) rfl]
+      simp only [PreSafeSpec, filterGo_eq_ofList]
+      constructor
+      · rintro ⟨ys, ⟨h1, rfl⟩, h2⟩; exact ⟨h1, (preSafe_iff rest _ hwr).mp h2⟩
+      · rintro ⟨h1, h2⟩; exact ⟨_, ⟨h1, rfl⟩, (preSafe_iff rest _ hwr).mpr h2⟩
+    | slice a b st =>
+      have hs : isliceS a b st (.ofList xs) = .ofList (Lena.C17.islice xs a b st) := by
+        simp only [isliceS, Strm.ofList]
+        cases b with
+        | none => rfl
+        | some b' => by_cases h : max a b' ≤ xs.length <;> simp [h]
+      rw [preSafe_cons (.slice a b st) rest xs _ rfl, hs]
+      simp only [PreSafeSpec]
+      constructor
+      · rintro ⟨ys, h1, h2⟩
+        simp only [Strm.ofList, Strm.mk.injEq, and_true] at h1
+        subst h1
+        exact (preSafe_iff rest _ hwr).mp h2
+      · intro h; exact ⟨_, rfl, (preSafe_iff rest _ hwr).mpr h⟩
+    | runEl r =>
+      have hb : r (.ofList xs) = .ok (bindGo (fun v => observe (r (.ofList [v]))) none xs) := hwe _
+      rw [preSafe_cons (.runEl r) rest xs _ hb]
+      simp only [PreSafeSpec, bindGo_eq_ofList]
+      constructor
+      · rintro ⟨ys, ⟨h1, rfl⟩, h2⟩; exact ⟨h1, (preSafe_iff rest _ hwr).mp h2⟩
+      · rintro ⟨h1, h2⟩; exact ⟨_, ⟨h1, rfl⟩, (preSafe_iff rest _ hwr).mpr h2⟩
+
+example : PreSafeSpec exChain.pre [1, 2, 3, 4, 5, 6, 7, 8, 9] :=
+  (preSafe_iff _ _ exChain_wf).mp (by rfl)
+
+/-- `seq_eq_fill` with the declarative hypothesis -/
+theorem seq_eq_fill_spec (c : Chain σ α) (xs : List α) (hwf : PreWF c.pre) (hacc : AccNoStop c.acc)
+    (hsafe : PreSafeSpec c.pre xs) : seqRun c xs = fillRun c xs :=
+  seq_eq_fill c xs hwf hacc ((preSafe_iff c.pre xs hwf).mpr hsafe)
+
+/-! ## 7. Outside the property's kinds: what holds precisely
+
+### dual-interface elements at the accumulator position
+
+`Count` (and `Split`, and any class with both `run` and `fill`/`compute`) is used through `run` by a `Sequence`
+and through `fill`/`compute` by a `FillComputeSeq`.  The two drivers then *deliver the same values* to it
+(`delivered_same`); what they yield is `run` of those values on one side and `compute` after filling them on the
+other — equal only if the element's two interfaces agree, which is the element's own business (for `Count` they
+do not: `count_dual`). -/
+
+/-- **both drivers deliver the same list `ys` to the element after the pre-processing part**: the `Sequence`
+applies the element's run face `R` to it, the `FillComputeSeq` fills its fill/compute face `a` with it -/
+theorem delivered_same (pre : List (Pre α)) (a : Acc σ α) (R : Stage α) (post : List (Stage α)) (xs : List α)
+    (hwf : PreWF pre) (hacc : AccNoStop a) (hsafe : PreSafe pre xs) :
+    ∃ ys, observe (composeS (pre.map Pre.run ++ R :: post) (.ofList xs))
+          = observe (composeS (R :: post) (.ofList ys)) ∧
+      fillRun { pre := pre, acc := a, post := post } xs = (match a.fillAll a.init ys with
+        | .error e => .fail e
+        | .ok s => computeAfter { pre := pre, acc := a, post := post } s) := by
+  obtain ⟨ys, hys, hfeed⟩ := chain_safe a pre xs hwf hsafe
+  refine ⟨ys, ?_, ?_⟩
+  · rw [composeS_append, hys]
+  · rw [fillRun_eq_finish]
+    rw [feedList_accSink a hacc ys a.init] at hfeed
+    unfold fillAllChain
+    simp only
+    cases hfa : a.fillAll a.init ys with
+    | error e =>
+      rw [hfa] at hfeed
+      cases hfc : feedList (chainSink a pre) (chainInit a.init pre) xs with
+      | ok st => rw [hfc] at hfeed; simp [FillRes.forget, Except.map] at hfeed
+      | stop st => rw [hfc] at hfeed; simp [FillRes.forget, Except.map] at hfeed
+      | err e' =>
+        rw [hfc] at hfeed
+        simp only [FillRes.forget, Except.map, Except.error.injEq] at hfeed
+        subst hfeed
+        rfl
+    | ok s' =>
+      rw [hfa] at hfeed
+      cases hfc : feedList (chainSink a pre) (chainInit a.init pre) xs with
+      | ok st =>
+        rw [hfc] at hfeed
+        simp only [FillRes.forget, Except.map, Except.ok.injEq] at hfeed
+        simp only [finish, hfeed]
+      | stop st =>
+        rw [hfc] at hfeed
+        simp only [FillRes.forget, Except.map, Except.ok.injEq] at hfeed
+        simp only [finish, hfeed]
+      | err e' => rw [hfc] at hfeed; simp [FillRes.forget, Except.map] at hfeed
+
+theorem count_fillAll (name : String) : ∀ (ys : List Value) (s : AccState),
+    (accOf (.count name)).fillAll s ys
+      = .ok { total := s.total, count := s.count + ys.length, ctx := lastCtxOr s.ctx ys, group := s.group }
+  | [], s => by simp [Acc.fillAll, lastCtxOr]
+  | [y], s => by simp [Acc.fillAll, accOf, accFill, lastCtxOr]
+  | y :: y' :: ys, s => by
+    have ih := count_fillAll name (y' :: ys) { s with count := s.count + 1, ctx := getContext y }
+    simp only [Acc.fillAll, accOf, accFill] at ih ⊢
+    rw [ih]
+    simp only [lastCtxOr, List.getLast?_cons_cons, List.length_cons, Except.ok.injEq, AccState.mk.injEq, and_true,
+      true_and]
+    refine ⟨by omega, ?_⟩
+    cases h : (y' :: ys).getLast? with
+    | none => simp at h
+    | some v => rfl
+
+theorem countLoop_spec : ∀ (rest : List Value) (prev : Value) (c : Nat),
+    countLoop prev c rest = ((prev :: rest).dropLast, (prev :: rest).getLast (by simp), c + rest.length)
+  | [], prev, c => by simp [countLoop]
+  | v :: rest, prev, c => by
+    simp only [countLoop, countLoop_spec rest v (c + 1), List.dropLast_cons_cons, List.length_cons]
+    refine Prod.ext rfl (Prod.ext ?_ ?_)
+    · simp [List.getLast_cons]
+    · simp only; omega
+
+/-- **`Count` at the accumulator position** (a dual-interface element used bare): after the same delivered
+values `ys`, `Sequence` (through `Count.run`) yields the values themselves, the last one carrying
+`{name: len(ys)}` in its context, and nothing for an empty `ys`; `FillComputeSeq` (through `fill`/`compute`)
+yields the single value `(len(ys), context of the last value + {name: len(ys)})`.  Both record the same count;
+the results are not equal — which is why an accumulator `Count` is wrapped as `FillCompute(Count())`. -/
+theorem count_dual (pre : List (Pre Value)) (name : String) (xs : List Value)
+    (hwf : PreWF pre) (hsafe : PreSafe pre xs) :
+    ∃ ys, observe (composeS (pre.map Pre.run ++ [fun s => .ok (countS name 0 s)]) (.ofList xs))
+          = .ofList (countRunSpec name ys) ∧
+      fillRun { pre := pre, acc := accOf (.count name), post := [] } xs
+          = .ofList [.tup [.int ys.length, .dict (dictSet (lastCtx ys) name (.int ys.length))]] := by
+  obtain ⟨ys, h1, h2⟩ := delivered_same pre (accOf (.count name)) (fun s => .ok (countS name 0 s)) [] xs
+    hwf (accOf_noStop _) hsafe
+  refine ⟨ys, ?_, ?_⟩
+  · rw [h1]
+    simp only [composeS, observe, countS, Strm.ofList, countRunSpec]
+    cases ys with
+    | nil => rfl
+    | cons y ys' =>
+      simp only [countLoop_spec ys' y 1, getDataContext]
+      have hne : (y :: ys').getLast? = some ((y :: ys').getLast (by simp)) :=
+        List.getLast?_eq_some_getLast (by simp)
+      rw [hne]
+      simp only [getData, getContext, List.length_cons]
+      congr 3
+      have : (1 : Int) + (ys'.length : Int) = ((ys'.length + 1 : Nat) : Int) := by omega
+      simp [Int.add_comm]
+      exact ⟨rfl, rfl⟩
+  · rw [h2]
+    have hinit : (accOf (.count name)).init = ({} : AccState) := rfl
+    rw [hinit, count_fillAll]
+    simp [computeAfter, composeS, observe, computeS, accOf, accCompute, lastCtx, Strm.ofList]
+
+/-! ### pre-processing elements outside the property's kinds -/
+
+theorem toPres_fail : ∀ (l : List Obj), (∃ o ∈ l, ∃ e, o.toPre = .error e) → toPres l = .error .lenaTypeError
+  | [], h => by obtain ⟨o, ho, _⟩ := h; cases ho
+  | o :: l, h => by
+    cases ho : o.toPre with
+    | error e =>
+      have : toPres (o :: l) = .error e := by simp [toPres, ho]
+      rw [this, toPres_error _ _ this]
+    | ok p =>
+      have hl : ∃ o' ∈ l, ∃ e, o'.toPre = .error e := by
+        obtain ⟨o', ho', e, he⟩ := h
+        rcases List.mem_cons.mp ho' with rfl | ho'
+        · rw [ho] at he; cases he
+        · exact ⟨o', ho', e, he⟩
+      simp [toPres, ho, toPres_fail l hl]
+
+/-- **an element before the accumulator that has no fill face** (no `fill_into`, not callable, not a Run element
+with `_can_break_flow`: `Reverse`, `End`, a number, …) makes `FillComputeSeq` — and hence a `Split` branch — raise
+`LenaTypeError` at construction, while `Sequence` may well accept it: there is no fill driver to compare with -/
+theorem fillComputeSeq_rejects (pre post : List Obj) (acc : Obj)
+    (hpre : ∀ o ∈ pre, o.hasNoData = false ∧ o.caps.isFillComputeEl = false)
+    (hacc : acc.hasNoData = false ∧ acc.caps.isFillComputeEl = true)
+    (hbad : ∃ o ∈ pre, ∃ e, o.toPre = .error e) :
+    mkFillComputeSeq (pre ++ acc :: post) = .error .lenaTypeError := by
+  obtain ⟨hand, hafc⟩ := hacc
+  have hpreData : dataSeq pre = pre := dataSeq_of_all_data pre (fun o ho => (hpre o ho).1)
+  have hdata : dataSeq (pre ++ acc :: post) = pre ++ acc :: dataSeq post := by
+    simp only [dataSeq] at hpreData ⊢
+    simp [List.filter_append, hpreData, List.filter_cons, hand]
+  have hsplit := splitAtFc_append pre acc (dataSeq post) (fun o ho => (hpre o ho).2) hafc
+  have hfill : acc.caps.hasMethod "fill" = true := by
+    simp only [Caps.isFillComputeEl, Bool.and_eq_true] at hafc
+    exact hafc.1.2
+  simp [mkFillComputeSeq, hdata, hsplit, mkFillSeq, hfill, toPres_fail pre hbad]
+
+/-- `Reverse()` has no fill face -/
+example : ∀ o, Spec.toObj .reverse = .ok o → ∃ e, o.toPre = .error e := by
+  intro o h
+  simp only [Spec.toObj, Except.ok.injEq] at h
+  subst h
+  exact ⟨.lenaTypeError, rfl⟩
+
+/-! ### a `Slice` with a negative index before the accumulator
+
+`Slice.__init__` does not create `_index`/`_next_index`/`_indices` for negative arguments ("It is not possible
+to use negative indices with fill_into"), but the method `fill_into` exists, so `FillSeq` accepts the element and
+the first value that reaches it raises `AttributeError`. -/
+
+/-- the `fill_into` face of a `Slice` with a negative index (`Spec.toObj`, case `negative`) -/
+def negSliceFill : Pre α := .call (fun _ => .error .attributeError)
+
+theorem neg_slice_fill_into (K : Sink κ α) (fs : Lena.C17.FillState) (s : κ) (v : α) :
+    stageFill negSliceFill K (fs, s) v = .err .attributeError := by
+  simp [stageFill, negSliceFill, FillRes.raise]
+
+theorem chainAcc_init (s0 : σ) : ∀ (pre : List (Pre α)), chainAcc pre (chainInit s0 pre) = s0
+  | [] => rfl
+  | _ :: rest => chainAcc_init s0 rest
+
+theorem neg_slice_chain (a : Acc σ α) (p2 : List (Pre α)) : ∀ (p1 : List (Pre α)) (xs : List α),
+    PreWF p1 → PreSafe p1 xs →
+    ∃ ys, composeS (p1.map Pre.run) (.ofList xs) = .ok (.ofList ys) ∧
+      (feedList (chainSink a (p1 ++ negSliceFill :: p2)) (chainInit a.init (p1 ++ negSliceFill :: p2)) xs).forget.map
+          (chainAcc (p1 ++ negSliceFill :: p2))
+        = (if ys.isEmpty then .ok a.init else .error .attributeError)
+  | [], xs, _, _ => by
+    refine ⟨xs, rfl, ?_⟩
+    cases xs with
+    | nil =>
+      simp only [List.nil_append, feedList, FillRes.forget, Except.map, List.isEmpty_nil, if_true]
+      exact congrArg Except.ok (chainAcc_init a.init (negSliceFill :: p2))
+    | cons x xs =>
+      simp only [List.nil_append, feedList, chainSink, chainInit, stageSink, neg_slice_fill_into,
+        FillRes.forget, Except.map, List.isEmpty_cons, Bool.false_eq_true, if_false]
+  | e :: rest, xs, hwf, hsafe => by
+    obtain ⟨hwe, hwr⟩ := preWF_cons hwf
+    cases hrun : e.run (.ofList xs) with
+    | error err => simp [PreSafe, preSafeB, hrun] at hsafe
+    | ok s1 =>
+      obtain ⟨ys0, hs1, hrest⟩ := (preSafe_cons e rest xs s1 hrun).mp hsafe
+      subst hs1
+      obtain ⟨ys, hys, hfeed⟩ := neg_slice_chain a p2 rest ys0 hwr hrest
+      refine ⟨ys, ?_, ?_⟩
+      · simp only [List.map_cons, composeS, hrun]
+        exact hys
+      · have hst := stage_consistent e hwe (chainSink a (rest ++ negSliceFill :: p2))
+          (chainInit a.init (rest ++ negSliceFill :: p2)) xs (.ofList ys0) hrun rfl
+        rw [← hfeed]
+        have : (Strm.ofList ys0).vals = ys0 := rfl
+        rw [this] at hst
+        rw [← hst]
+        exact except_map_chainAcc_cons e (rest ++ negSliceFill :: p2) _
+
+/-- **a negative `Slice` before the accumulator**: with pre-processing `p1`, then the negative `Slice`, then `p2`:
+if no value gets through `p1` the `FillComputeSeq` computes the untouched accumulator; as soon as one value
+reaches the `Slice` the fill driver raises `AttributeError` — whatever `Sequence.run` (which uses
+`_run_negative_islice`) yields.  Negative indices are excluded from the property for this reason. -/
+theorem neg_slice_fillRun (c : Chain σ α) (p1 p2 : List (Pre α)) (hc : c.pre = p1 ++ negSliceFill :: p2)
+    (xs : List α) (hwf : PreWF p1) (hsafe : PreSafe p1 xs) :
+    ∃ ys, composeS (p1.map Pre.run) (.ofList xs) = .ok (.ofList ys) ∧
+      fillRun c xs = (if ys.isEmpty then computeAfter c c.acc.init else .fail .attributeError) := by
+  obtain ⟨pre, acc, post⟩ := c
+  simp only at hc
+  subst hc
+  obtain ⟨ys, hys, hfeed⟩ := neg_slice_chain acc p2 p1 xs hwf hsafe
+  refine ⟨ys, hys, ?_⟩
+  rw [fillRun_eq_finish]
+  unfold fillAllChain
+  simp only
+  cases hfc : feedList (chainSink acc (p1 ++ negSliceFill :: p2)) (chainInit acc.init (p1 ++ negSliceFill :: p2)) xs with
+  | ok st =>
+    rw [hfc] at hfeed
+    by_cases he : ys.isEmpty = true
+    · simp only [he, if_true, FillRes.forget, Except.map, Except.ok.injEq] at hfeed ⊢
+      simp only [finish, hfeed]
+    · simp [he, FillRes.forget, Except.map] at hfeed
+  | stop st =>
+    rw [hfc] at hfeed
+    by_cases he : ys.isEmpty = true
+    · simp only [he, if_true, FillRes.forget, Except.map, Except.ok.injEq] at hfeed ⊢
+      simp only [finish, hfeed]
+    · simp [he, FillRes.forget, Except.map] at hfeed
+  | err e =>
+    rw [hfc] at hfeed
+    by_cases he : ys.isEmpty = true
+    · simp [he, FillRes.forget, Except.map] at hfeed
+    · simp only [he, Bool.false_eq_true, if_false, FillRes.forget, Except.map, Except.error.injEq] at hfeed ⊢
+      subst hfeed
+      rfl
+
+/-! ### a `Split` used as a fill/compute element (`Split.fill`, `Split.compute`)
+
+A `Split` whose branches are all of type "fill_compute" has `run` *and* `fill`/`compute` — a dual-interface element
+like `Count`.  `Split._fill` does not handle `LenaStopFill` of a single branch (as `Split.run` does): it lets it
+escape, so the enclosing driver stops filling the whole `Split`. -/
+
+/-- **if no branch stops or raises**, the `Split` filled value by value and then computed yields exactly what
+`Split.run` yields with any `bufsize`: the branches' results in the order of the initializer list -/
+theorem split_fill_eq_run (cs : List (Chain σ α)) (bufsize : Option Nat) (hb : bufsize ≠ some 0) (xs : List α)
+    (hok : ∀ c ∈ cs, ∃ st, fillAllChain c xs = .ok st) :
+    splitFillRun cs xs = splitRunTagged cs bufsize xs := by
+  have h := initActive_fillsOk xs cs 0 hok
+  have hc : ∀ B ∈ initActive 0 cs, B.FillsOk (chunks bufsize xs).flatten := by
+    rw [chunks_flatten bufsize hb xs]; exact h
+  simp only [splitFillRun, feedList_splitSink_ok xs _ h, splitRunTagged, splitLoop_ok _ _ hc,
+    chunks_flatten bufsize hb xs]
+
+/-- the inner `Split([(Slice(2), Sum()), (Sum(),)])` of `notes/C05_observation_split_fill.md` -/
+def exInner : List (Chain Int Int) :=
+  [{ pre := [.slice 0 (some 2) 1], acc := exSum, post := [] }, { pre := [], acc := exSum, post := [] }]
+
+/-- run: `[3, 15]`; filled (e.g. as a branch of an outer `Split`, or inside a `FillComputeSeq`): the first branch
+raises `LenaStopFill` on the third value, the second branch never sees values 3, 4, 5: `[3, 3]` -/
+example : splitRunTagged exInner (some 2) [1, 2, 3, 4, 5] = ⟨[(0, 3), (1, 15)], none⟩ := by rfl
+example : splitFillRun exInner [1, 2, 3, 4, 5] = ⟨[(0, 3), (1, 3)], none⟩ := by rfl
+example : ∀ c ∈ exInner, ∃ st, fillAllChain c [1, 2] = .ok st := by
+  intro c hc
+  simp only [exInner, List.mem_cons, List.not_mem_nil, or_false] at hc
+  rcases hc with rfl | rfl <;> exact ⟨_, rfl⟩
 
 end Lena.C05
